@@ -44,7 +44,8 @@ Theorem orf_listing_exact : forall tbl dna,
 Proof. exact NovelOrfProofs.orf_listing_exact. Qed.
 Print Assumptions orf_listing_exact.
 
-(* (S) membership in the computed obliged set <-> the property's existential statement:
+(* (S) membership in the computed obliged set <-> the property's existential statement (digestion products include the
+   Met-removed form of products starting at the ORF start - the tool's rule, adopted as a convention):
    q is not canonical and there are a selected transcript, an ATG position p and boundaries i < j <= i+k+1
    of the digest of the translation from p (Product) such that q is that product, or a W>F image of it
    within the limits *)
